@@ -615,6 +615,13 @@ def r_heap_index(ctx, rule='R11.f'):
                 elif right(a[1]) and size(a[2]): rr &= a[3]
                 elif right(a[2]) and size(a[1]): rr &= frozenset({'<': '>', '>': '<', '=': '='}[x] for x in a[3])
             pass
+        # right_child(q) = left_child(q) + 1 (rule `children` above): right < len implies left < len, left >= len implies right > len
+        if rr == frozenset('<'):
+            rl &= frozenset('<')
+        if rl and rl <= frozenset('>='):
+            rr &= frozenset('>')
+        if not rl or not rr:
+            continue            # contradictory path
         is_cmp_lr = lambda t: M.is_call(t, 'compare_at_pos') and left(t[2][1]) and right(t[2][2])
         cmpres = ord_names(atoms, is_cmp_lr)
         if ord_names(atoms, lambda t: M.is_call(t, 'compare_at_pos') and not is_cmp_lr(t)) is not None:
